@@ -19,6 +19,8 @@ type GenCfg struct {
 	SetKeys []string
 	// probability weights
 	ScalarBias int // 0..10: higher = more scalars at depth>0
+	Chain      int  // k in 10 pairs are ChainPairs (deep chain to an edited leaf object)
+	ChainLists bool // chains may step through list indices
 	Descend    int // 0 = default (1 in 2); k > 0: mutations descend into a child with probability k in k+1
 }
 
@@ -46,7 +48,7 @@ func NastyCfg() GenCfg {
 
 // DeepCfg: narrow but deeply nested, object-heavy documents (paths of length 3..6)
 func DeepCfg() GenCfg {
-	return GenCfg{MaxDepth: 6, MaxLen: 3, MaxKeys: 3, Nums: smallNums, Strs: smallStrs, Keys: smallKeys, AllowNull: true, AllowBool: true, ScalarBias: 2, Descend: 5}
+	return GenCfg{MaxDepth: 6, MaxLen: 3, MaxKeys: 3, Nums: smallNums, Strs: smallStrs, Keys: smallKeys, AllowNull: true, AllowBool: true, ScalarBias: 2, Descend: 5, Chain: 5, ChainLists: true}
 }
 
 func (c GenCfg) scalar(r *Rng) *Val {
@@ -348,8 +350,59 @@ func isIn(s string, l []string) bool {
 	return false
 }
 
+// ChainPair: a path of 2..6 keys / list indices leading to a leaf object with 2..4 members, and a second
+// document that edits the leaf (remove, change, add members in any position). Slices that hold paths of
+// length 3, 5, 6, 7 have spare capacity in Go: aliasing bugs on paths only show at those depths.
+func (c GenCfg) ChainPair(r *Rng, listSteps bool) (*Val, *Val) {
+	depth := 2 + r.Intn(5)
+	keys := []string{"w", "x", "y", "z"}
+	leafA, leafB := VObj(), VObj()
+	for _, k := range keys[:2+r.Intn(3)] {
+		v := c.scalar(r)
+		if !c.AllowNull && v.K == KNull {
+			v = VNum(1)
+		}
+		leafA.O[k] = v
+		switch r.Intn(4) {
+		case 0: // removed in b
+		case 1:
+			w := c.scalar(r)
+			if !c.AllowNull && w.K == KNull {
+				w = VNum(2)
+			}
+			leafB.O[k] = w
+		default:
+			leafB.O[k] = v.Clone()
+		}
+	}
+	if r.Chance(1, 3) {
+		leafB.O["v"] = VNum(9)
+	}
+	if r.Chance(1, 4) {
+		leafB.O["zz"] = VStr("n")
+	}
+	a, b := leafA, leafB
+	for i := 0; i < depth; i++ {
+		if listSteps && r.Chance(1, 3) {
+			pre := VNum(float64(r.Intn(3)))
+			a, b = VArr(pre, a), VArr(pre.Clone(), b)
+		} else {
+			k := c.Keys[r.Intn(len(c.Keys))]
+			a, b = VObj(k, a), VObj(k, b)
+			if r.Chance(1, 3) {
+				a.O["s"] = VNum(5)
+				b.O["s"] = VNum(5)
+			}
+		}
+	}
+	return a, b
+}
+
 // Pair generates (a, b): b is a mutation of a most of the time, sometimes independent or equal.
 func (c GenCfg) Pair(r *Rng) (*Val, *Val) {
+	if c.Chain > 0 && r.Chance(c.Chain, 10) {
+		return c.ChainPair(r, c.ChainLists)
+	}
 	a := c.Doc(r, 0)
 	switch r.Intn(10) {
 	case 0:
